@@ -223,6 +223,9 @@ func (x *X) canInline(fr *Frame, fn *ssa.Function) bool {
 
 func (x *X) isModuleFn(fn *ssa.Function) bool {
 	if fn.Pkg == nil {
+		if rp := x.recvPkg(fn); rp != nil {
+			return isModulePkg(rp.Path(), x.module)
+		}
 		if fn.Parent() != nil {
 			return x.isModuleFn(fn.Parent())
 		}
@@ -239,6 +242,10 @@ func (x *X) isModuleFn(fn *ssa.Function) bool {
 }
 
 func (x *X) callStatic(fr *Frame, st *State, fn *ssa.Function, args []SV, cc *ssa.CallCommon, pos token.Pos) []SV {
+	// promoted-method wrappers called from another package: the method symbol of the outer receiver
+	if fn.Synthetic != "" && fn.Signature.Recv() != nil && x.isModuleFn(fn) && x.recvPkg(fn) != nil && x.top != nil && x.top.Pkg != nil && x.recvPkg(fn) != x.top.Pkg.Pkg && strings.HasPrefix(fn.Synthetic, "wrapper") {
+		return x.crossCall(fr, st, fn, args, pos)
+	}
 	// bound-method and other synthetic wrappers: look through
 	if fn.Synthetic != "" && len(fn.Blocks) > 0 && !hasLoops(fn) && x.isModuleFn(fn) && fn.Parent() == nil && fn.Origin() == nil {
 		return x.inline(fr, st, fn, args, nil, pos)
@@ -301,6 +308,12 @@ func (x *X) inline(fr *Frame, st *State, fn *ssa.Function, args []SV, binds []SV
 }
 
 func (x *X) applyPure(fr *Frame, st *State, fn *ssa.Function, c *Contract, args []SV) []SV {
+	if fn.Signature.Recv() != nil && len(args) > 0 && fn.Object() != nil {
+		// same symbol as interface / cross-package calls of the method
+		rets := x.crossCall(fr, st, fn, args, token.NoPos)
+		x.assumeEnsures(fr, st, st, fn, c, nil, args, rets)
+		return rets
+	}
 	var targs []Term
 	for i, a := range args {
 		targs = append(targs, x.asTerm(a, fn.Params[i].Type()))
@@ -477,6 +490,9 @@ func (x *X) assumeEnsures(fr *Frame, st, pre *State, fn *ssa.Function, c, sch *C
 			continue
 		}
 		for _, cl := range cc.Ensures {
+			if cl.internal() {
+				continue // statements about the callee's own call trace mean nothing to its callers
+			}
 			env := &specEnv{x: x, st: st, old: pre, vars: vars, ovars: ovars, fr: fr}
 			x.pure++
 			t, ok := x.evalClause(cl, fn, env, resolve)
@@ -763,6 +779,15 @@ func (x *X) atCallAsserts(fr *Frame, st *State, callee *ssa.Function, args []SV,
 			}
 		}
 		resolve, bind := x.localResolver(top, pos, extra)
+		if pkg := x.db.pkgOf(x.top); pkg != nil {
+			if err := x.db.compile(cl, pkg.pkg, resolve); err != nil {
+				x.db.errorf("%v", err)
+				continue
+			}
+			for n := range cl.names {
+				resolve(n)
+			}
+		}
 		env := &specEnv{x: x, st: st, old: x.entry, vars: vars, fr: top}
 		env.vars = bind(st, vars)
 		env.ovars = x.entryVars(top)
@@ -886,7 +911,9 @@ func (x *X) invoke(fr *Frame, st *State, recv SV, m *types.Func, args []SV, pos 
 		if x.pure == 0 {
 			x.safety(st, fr, "nil-invoke", mkNot(T(SBool, "((_ is ANil) "+rv.S+")")), pos)
 		}
-		return x.methodUF(st, m, rv, args)
+		rets := x.methodUF(st, m, rv, args)
+		x.promotedAxioms(st, m, rv, args, rets)
+		return rets
 	}
 	x.enc.unsupported("interface call " + m.FullName() + " (results arbitrary)")
 	return x.havocResults(sig, st)
@@ -898,7 +925,10 @@ func isModuleIface(m *types.Func, module string) bool {
 
 // methodUF models a pure getter by an uninterpreted function per method name.
 func (x *X) methodUF(st *State, m *types.Func, recv Term, args []SV) []SV {
-	sig := m.Type().(*types.Signature)
+	return x.methodSym(st, m.Pkg().Name(), m.Name(), m.Type().(*types.Signature), recv, args)
+}
+
+func (x *X) methodSym(st *State, pkgName, mname string, sig *types.Signature, recv Term, args []SV) []SV {
 	targs := []Term{recv}
 	for i, a := range args {
 		targs = append(targs, x.asTerm(a, sig.Params().At(i).Type()))
@@ -907,7 +937,7 @@ func (x *X) methodUF(st *State, m *types.Func, recv Term, args []SV) []SV {
 	rets := make([]SV, n)
 	for i := 0; i < n; i++ {
 		rt := sig.Results().At(i).Type()
-		name := fmt.Sprintf("m_%s_%s", sanitize(m.Pkg().Name()), m.Name())
+		name := fmt.Sprintf("m_%s_%s", sanitize(pkgName), mname)
 		if n > 1 {
 			name += fmt.Sprintf("_r%d", i)
 		}
@@ -915,7 +945,7 @@ func (x *X) methodUF(st *State, m *types.Func, recv Term, args []SV) []SV {
 		x.assumeWF(st, r, rt)
 		rets[i] = r
 	}
-	x.enc.assumption("methods of " + m.Pkg().Name() + " interfaces are pure functions of the receiver while executing (AST immutable: frame obligations of package ast)")
+	x.enc.assumption("methods of package " + pkgName + " called from other packages are pure functions of the receiver (immutability: frame obligations of that package)")
 	return rets
 }
 
@@ -1098,9 +1128,26 @@ func splitSexp(s string) []string {
 
 // crossPackage: a call from the package under verification into another
 // package of the module that carries no contract.
+func (x *X) recvPkg(fn *ssa.Function) *types.Package {
+	if fn.Signature.Recv() == nil {
+		return nil
+	}
+	t := fn.Signature.Recv().Type()
+	if pt, ok := t.Underlying().(*types.Pointer); ok {
+		t = pt.Elem()
+	}
+	if n, ok := t.(*types.Named); ok {
+		return n.Obj().Pkg()
+	}
+	return nil
+}
+
 func (x *X) crossPackage(fn *ssa.Function) bool {
 	if x.top == nil || x.top.Pkg == nil {
 		return false
+	}
+	if rp := x.recvPkg(fn); rp != nil {
+		return rp != x.top.Pkg.Pkg
 	}
 	p := fn.Pkg
 	if p == nil && fn.Origin() != nil {
@@ -1129,8 +1176,12 @@ func (x *X) crossCall(fr *Frame, st *State, fn *ssa.Function, args []SV, pos tok
 		} else {
 			recv = x.makeInterface(args[0], rt)
 		}
-		m := fn.Object().(*types.Func)
-		return x.methodUF(st, m, recv, args[1:])
+		pkgName := "?"
+		if p := x.recvPkg(fn); p != nil {
+			pkgName = p.Name()
+		}
+		msig := types.NewSignatureType(nil, nil, nil, sig.Params(), sig.Results(), sig.Variadic())
+		return x.methodSym(st, pkgName, fn.Name(), msig, recv, args[1:])
 	}
 	var targs []Term
 	for i, a := range args {
@@ -1147,4 +1198,47 @@ func (x *X) crossCall(fr *Frame, st *State, fn *ssa.Function, args []SV, pos tok
 	}
 	x.enc.assumption("calls into other module packages without a contract are pure functions of their arguments: " + funcName(fn))
 	return rets
+}
+
+// promotedAxioms: when the dynamic type of an interface receiver is a struct
+// that gets method m by embedding a pointer (StringNode -> *quotedString ...),
+// the call is the same as the call on the embedded part. This links the
+// interface-level method symbol with the concrete one.
+func (x *X) promotedAxioms(st *State, m *types.Func, recv Term, args []SV, rets []SV) {
+	iface, ok := m.Type().(*types.Signature).Recv().Type().Underlying().(*types.Interface)
+	if !ok {
+		return
+	}
+	sig := m.Type().(*types.Signature)
+	for _, cand := range x.implementers(iface) {
+		pt, ok := cand.Underlying().(*types.Pointer)
+		if !ok {
+			continue
+		}
+		n, ok := pt.Elem().(*types.Named)
+		if !ok {
+			continue
+		}
+		stt, ok := n.Underlying().(*types.Struct)
+		if !ok {
+			continue
+		}
+		sel := types.NewMethodSet(cand).Lookup(m.Pkg(), m.Name())
+		if sel == nil || len(sel.Index()) != 2 {
+			continue
+		}
+		f := stt.Field(sel.Index()[0])
+		ipt, ok := f.Type().Underlying().(*types.Pointer)
+		if !ok || !f.Embedded() {
+			continue
+		}
+		guard := mkAnd(T(SBool, "((_ is APtr) "+recv.S+")"), mkEq(app(SInt, "aptrT", recv), intLit(int64(x.enc.tid(cand)))))
+		inner := mkSelect(x.get(st, x.fieldKey(n, sel.Index()[0])), app(SInt, "aptr", recv), SInt)
+		innerRecv := app(SAny, "APtr", intLit(int64(x.enc.tid(types.NewPointer(ipt.Elem())))), inner)
+		irets := x.methodSym(st, m.Pkg().Name(), m.Name(), sig, innerRecv, args)
+		for i := range rets {
+			x.vc.assume(mkImplies(guard, mkEq(rets[i].(Term), irets[i].(Term))))
+		}
+		x.vc.assume(mkImplies(guard, app(SBool, "<", intLit(0), inner)))
+	}
 }
